@@ -217,6 +217,36 @@ pub fn run<W: Write>(out: &mut W, count: u64, seed: u64) {
                     for (how, a) in variants {
                         writeln!(out, "{}", json!({"kind": "corrupt", "how": how, "idx": 3, "token": "", "tk": "payload", "orig": orig, "parsed": parse_args(&a)})).ok();
                     }
+                    // damage BELOW the base64 layer: every single-bit flip of the gzip stream and every truncation of its last
+                    // 1..16 bytes (the CRC32 / ISIZE trailer is what protects the inflated text).  Only accepted variants are
+                    // written out (a rejected one is what the property asks for); the summary line counts all of them.
+                    if i % 9 == 1 {
+                        if let Ok(raw) = base64::decode(&data) {
+                            let mut tried = 0u64;
+                            let mut accepted = 0u64;
+                            let mut try_one = |how: &str, bytes: &[u8], out: &mut dyn Write| {
+                                tried += 1;
+                                let mut a = cargs.clone();
+                                a[3] = base64::encode(bytes);
+                                let parsed = parse_args(&a);
+                                if parsed["ok"] == true {
+                                    accepted += 1;
+                                    writeln!(out, "{}", json!({"kind": "corrupt", "how": how, "idx": 3, "token": "", "tk": "payload", "orig": orig, "parsed": parsed})).ok();
+                                }
+                            };
+                            for byte in 0..raw.len() {
+                                for bit in 0..8 {
+                                    let mut b = raw.clone();
+                                    b[byte] ^= 1 << bit;
+                                    try_one("gzip_bit_flip", &b, out);
+                                }
+                            }
+                            for cut in 1..=16usize.min(raw.len()) {
+                                try_one("gzip_truncate", &raw[..raw.len() - cut], out);
+                            }
+                            writeln!(out, "{}", json!({"kind": "corrupt_summary", "tried": tried, "accepted": accepted})).ok();
+                        }
+                    }
                 }
             }
         }
